@@ -238,6 +238,11 @@ def policy_suites(fmt, tier):
         ("policy-enum%d" % L, suite(fmt, enum(alpha, L), [3, 4, 5], {"fixed": [NEXT, SET0, EXACT(2)]}, chunks=[[0]], pols=pols, slots=1, extra=2, sample=q(tier, 3 if fmt == "fasta" else 8, 0)), 8),
         ("policy-struct", suite(fmt, rnd(q(tier, 1500, 15000), maxrec=6, maxfield=6, damage=15), {"abs": [3, 4, 6, 8, 12], "rel": [-4, -1]},
                                 {"rand": {"n": 2, "len": 5, "seeks": True, "pols": True}}, chunks=[[0], [1]], pols=pols, conf_sample=6, slots=2, extra=3), 8),
+        # a policy that refuses, then a permissive policy installed with set_policy(): the stream must go on
+        ("policy-takeover", suite(fmt, rnd(q(tier, 500, 5000), maxrec=4, maxfield=8, damage=0), [3, 4, 6, 8],
+                                  {"fixed": [{"ops": [{"o": "next"}] * k + [{"o": "pol", "p": {"k": pk, "a": 1}}], "tail": {"o": "next"}} for k in (1, 2, 3) for pk in ("std", "plus")]
+                                            + [{"ops": [{"o": "set", "s": 0}] * k + [{"o": "pol", "p": {"k": "std"}}], "tail": {"o": "set", "s": 0}} for k in (1, 2)]},
+                                  chunks=[[0]], pols=[{"k": "refuse"}, {"k": "dmax", "a": 6}, {"k": "dmax", "a": 12}], slots=1, extra=2), 4),
         # long inputs of small records: must never grow however long they are
         ("policy-long", suite(fmt, rnd(q(tier, 40, 300), maxrec=q(tier, 60, 200), maxfield=3, damage=0), [16, 24, 64], {"fixed": [NEXT, SET0]}, chunks=[[0], [5]], pols=[{"k": "plus", "a": 1}],
                               slots=1, extra=1), 4),
@@ -256,8 +261,10 @@ def build_jobs(prop, tier):
     elif prop == "C04":
         J.append(ReaderJob("c04", history_suites("fasta", tier) + history_suites("fastq", tier)))
     elif prop == "C05":
+        # "from any reader state": also seeks after a source error (the last of the fault suites' histories seeks)
         J.append(ReaderJob("c05", plain_suites("fasta", tier, extra_hists=False)[:2] + plain_suites("fastq", tier, extra_hists=False)[:2]
-                           + history_suites("fasta", tier) + history_suites("fastq", tier)))
+                           + history_suites("fasta", tier) + history_suites("fastq", tier)
+                           + fault_suites("fasta", tier)[1:] + fault_suites("fastq", tier)[1:]))
     elif prop == "C06":
         J.append(ReaderJob("c06", plain_suites("fasta", tier)[-2:] + plain_suites("fastq", tier)[-2:] + history_suites("fasta", tier)[1:] + history_suites("fastq", tier)
                            + fault_suites("fasta", tier) + fault_suites("fastq", tier) + policy_suites("fasta", tier)[:2] + policy_suites("fastq", tier)[:2]))
@@ -279,7 +286,9 @@ def build_jobs(prop, tier):
     elif prop == "C14":
         J.append(ReaderJob("c14", fault_suites("fasta", tier) + fault_suites("fastq", tier) + pair_suites("fasta", tier, "C14") + pair_suites("fastq", tier, "C14")))
     elif prop == "C17":
-        J.append(ReaderJob("c17", plain_suites("fasta", tier) + plain_suites("fastq", tier)))
+        # errors reached by next(), by record sets and after seeks - also after a seek the source refused
+        J.append(ReaderJob("c17", plain_suites("fasta", tier) + plain_suites("fastq", tier)
+                           + history_suites("fastq", tier)[:1] + fault_suites("fastq", tier)[1:]))
     elif prop == "C18":
         fl = {"alloc": True}
         J.append(ReaderJob("c18", plain_suites("fasta", tier, fl)[3:4] + plain_suites("fastq", tier, fl)[3:4] + history_suites("fasta", tier, fl, seeks=False)[1:] + history_suites("fastq", tier, fl, seeks=False)))
@@ -416,7 +425,7 @@ class ParJob:
                          "case": {"par_cfg": r["cfg"], "result": r["result"], "obs": r["obs"], "steer": r.get("steer")}, "job": self.name})
         # 3. the public entry points on real readers
         for fmt in ("fasta", "fastq"):
-            for k, (faults, n) in enumerate([(False, q(tier, 400, 4000)), (True, q(tier, 300, 3000)), (True, q(tier, 300, 3000))]):
+            for k, (faults, n) in enumerate([(False, q(tier, 400, 4000)), (True, q(tier, 300, 3000)), (True, q(tier, 300, 3000)), (False, q(tier, 10, 80))]):
                 if hang:
                     break
                 sp = os.path.join(wd, "api_%s_%d.json" % (fmt, k))
@@ -424,6 +433,9 @@ class ParJob:
                       "gen": {"maxrec": 9, "maxfield": 4, "damage": 25 if k == 0 else 40}}
                 if k == 2:
                     sd.update({"focus": "recinit", "gen": {"maxrec": 12, "maxfield": 3, "damage": 0}})
+                if k == 3:
+                    # long inputs: batches of several hundred records alternating with batches of two or three (counters only)
+                    sd.update({"focus": "big", "gen": {"maxrec": 1, "maxfield": 1, "damage": 0}})
                 json.dump(sd, open(sp, "w"))
                 op = os.path.join(wd, "api_%s_%d.ndjson" % (fmt, k))
                 st = vlib.run_harness(["par-api", "--suite", sp, "--out", op, "--seed", str(vlib.seed() + k)])
@@ -436,7 +448,7 @@ class ParJob:
             r = json.loads(vlib.shard_line(m["shard"], m["run"]))
             small = {k: r[k] for k in ("api", "fmt", "input", "cap", "NW", "Q", "stop_after", "rinit_fail", "recinit_fail_at", "setinit_fail_at", "result")}
             mism.append({"props": m["props"], "why": m["why"], "kind": "parapi", "fmt": r["fmt"], "op": r["api"], "res_kind": r["result"].get("k"),
-                         "case": {"par_api": small, "ncalls": len(r["calls"])}, "job": self.name})
+                         "case": {"par_api": small, "ncalls": r["ncalls"], "input_is_pattern": r["big"], "counters": {k: r[k] for k in ("nsetinit", "nrecinit", "nbad", "set_sizes")}}, "job": self.name})
         try:
             r0 = json.loads(vlib.shard_line(afiles[0], 1))
             samples.append({"api_run": {k: r0[k] for k in ("api", "fmt", "input", "cap", "NW", "Q", "result")}, "consumer_calls": len(r0["calls"])})
